@@ -143,11 +143,13 @@ func overCmp[T comparable](out *[]Kind, e *kindOf[T], depth int) {
 	}
 	str := String()
 	lc := LowCardinality(e)
-	*out = append(*out, lc, Map(e, str))
+	// the nestings of LowCardinality are part of the small universe too: its state prefix and "nothing at all for no
+	// rows" rule interact with the container around it
+	*out = append(*out, lc, Map(e, str), Array(lc), Map(str, lc))
 	if depth < 3 {
 		return
 	}
-	*out = append(*out, Array(lc), Map(lc, Array(e)), Map(e, LowCardinality(str)), Array(Array(lc)), Tuple(lc, e),
+	*out = append(*out, Map(lc, Array(e)), Map(e, LowCardinality(str)), Array(Array(lc)), Tuple(lc, e),
 		Map(str, Array(lc)))
 }
 
